@@ -146,6 +146,7 @@ def situations(beh):
     (who restarts from what: computed by TLC from the model state, see MC_Activity.tla)"""
     f = set()
     snap = None
+    blk = None
     for st in beh[1:]:
         a = st['last']
         n = a['a']
@@ -166,6 +167,20 @@ def situations(beh):
             f.add('crash:' + a['st'])
         elif n == 'PublishFail' and snap:
             f.add('fail-after-snap')
+        # a blockade and how it ends: survived (the event is published and recorded after the
+        # unblock), or the process / the leadership ends first
+        if n == 'Block':
+            blk = 'blocked'
+        elif n == 'PublishFail' and blk == 'blocked':
+            blk = 'failed'
+        elif n == 'Unblock' and blk == 'failed':
+            blk = 'unblocked'
+        elif n == 'RecordPublished' and blk == 'unblocked':
+            f.add('blockade-survived')
+            blk = None
+        elif n in ('Crash', 'StepDown') and blk in ('failed', 'unblocked'):
+            f.add('blockade-ends-with:' + n)
+            blk = None
     return f
 
 
@@ -243,7 +258,12 @@ def snapshot_scenarios(rng, first_id, n):
             steps += [{'a': 'DispatchPublish', 'n': 'a'}, {'a': 'RecordPublished', 'n': 'a'}]
         if foreign:
             steps.append({'a': 'ForeignOp'})
-        # one more round: the restarted controller goes on behind what it has just recorded
+        # one more round: the restarted controller goes on behind what it has just recorded -
+        # through a blockade that ends (refused / error ack in turn)
+        op = {'a': 'CommitOp', 'k': 'E'}
+        op.update(meta.pick())
+        steps += [{'a': 'Block', 'how': ['readonly', 'nack'][i % 2]}, op, {'a': 'PublishFail', 'n': 'a'}, {'a': 'Unblock'},
+                  {'a': 'DispatchPublish', 'n': 'a'}, {'a': 'RecordPublished', 'n': 'a'}]
         op = {'a': 'CommitOp', 'k': 'E'}
         op.update(meta.pick())
         steps += [op, {'a': 'DispatchPublish', 'n': 'a'}, {'a': 'RecordPublished', 'n': 'a'}]
